@@ -1076,3 +1076,87 @@ func constString(v ssa.Value) (string, bool) {
 	}
 	return constant.StringVal(k.Value), true
 }
+
+// effCall is a call of a target function as seen from a root function: In is the call instruction
+// in the root (the direct call, or the call of the helper that leads to it), Args the target's
+// arguments expressed as values of the root (nil where the helper computes the argument itself
+// instead of passing one of its own parameters through).
+type effCall struct {
+	In   ssa.CallInstruction
+	Args []ssa.Value
+}
+
+// effectiveCalls lists the calls of target made by root directly or through same-package helpers
+// it calls statically (up to depth levels): the view a rule gets when a block of the root was
+// extracted into a helper.
+func effectiveCalls(root *ssa.Function, target Ref, depth int) []effCall {
+	var out []effCall
+	var visit func(fn *ssa.Function, at ssa.CallInstruction, subst map[*ssa.Parameter]ssa.Value, d int)
+	visit = func(fn *ssa.Function, at ssa.CallInstruction, subst map[*ssa.Parameter]ssa.Value, d int) {
+		var calls []ssa.CallInstruction
+		eachInstr(fn, func(in ssa.Instruction) {
+			if ci, ok := in.(ssa.CallInstruction); ok {
+				calls = append(calls, ci)
+			}
+		})
+		sort.SliceStable(calls, func(i, j int) bool { return calls[i].Pos() < calls[j].Pos() })
+		mapArg := func(v ssa.Value) ssa.Value {
+			if subst == nil {
+				return v
+			}
+			if p, ok := stripValue(v).(*ssa.Parameter); ok {
+				return subst[p]
+			}
+			return nil
+		}
+		for _, ci := range calls {
+			site := at
+			if site == nil {
+				site = ci
+			}
+			if matchFunc(calleeObj(ci), target) {
+				var args []ssa.Value
+				for _, a := range callArgs(ci) {
+					args = append(args, mapArg(a))
+				}
+				out = append(out, effCall{In: site, Args: args})
+				continue
+			}
+			h := ci.Common().StaticCallee()
+			if d >= depth || h == nil || h.Blocks == nil || h.Pkg != root.Pkg || h == fn || h == root {
+				continue
+			}
+			if _, isGo := ci.(*ssa.Go); isGo {
+				continue
+			}
+			if len(callsInTransitive(h, target, depth-d)) == 0 {
+				continue
+			}
+			sub := map[*ssa.Parameter]ssa.Value{}
+			args := callArgs(ci)
+			for k, p := range h.Params {
+				if k < len(args) {
+					sub[p] = mapArg(args[k])
+				}
+			}
+			visit(h, site, sub, d+1)
+		}
+	}
+	visit(root, nil, nil, 0)
+	return out
+}
+
+func callsInTransitive(fn *ssa.Function, target Ref, depth int) []ssa.CallInstruction {
+	out := callsIn(fn, target)
+	if depth <= 0 {
+		return out
+	}
+	eachInstr(fn, func(in ssa.Instruction) {
+		if ci, ok := in.(ssa.CallInstruction); ok {
+			if h := ci.Common().StaticCallee(); h != nil && h.Blocks != nil && h.Pkg == fn.Pkg && h != fn {
+				out = append(out, callsInTransitive(h, target, depth-1)...)
+			}
+		}
+	})
+	return out
+}
